@@ -66,7 +66,10 @@ def _path(draw):
                     cv.append([draw(st.sampled_from(UNREC)), draw(frac)])
                     break
                 cv.append([draw(flag_r), draw(frac)])
-    return {"dt": 10.0 ** draw(st.floats(min_value=-6, max_value=16)), "cv": cv, "ri": ri}
+    out = {"dt": 10.0 ** draw(st.floats(min_value=-6, max_value=16)), "cv": cv, "ri": ri}
+    if draw(st.integers(0, 7)) == 0:
+        out["reset"] = draw(st.sampled_from([1, 50, 500]))
+    return out
 
 
 @st.composite
@@ -75,7 +78,14 @@ def _case(draw, nscripts):
     net = draw(st.sampled_from([0, 1, 2, 3]))
     if backend == "rosenbrock4":
         mx = draw(st.sampled_from([1, 2, 5, 50, 500]))
-        scripts = [{"dt": 10.0 ** draw(st.floats(min_value=-6, max_value=16)), "mxsteps": mx, "steps": max(1, draw(st.sampled_from([1, max(mx - 2, 1), mx - 1, mx, mx + 1, mx * 3, 1000])))} for _ in range(nscripts)]
+        scripts = []
+        for _ in range(nscripts):
+            sc = {"dt": 10.0 ** draw(st.floats(min_value=-6, max_value=16)), "mxsteps": mx, "steps": max(1, draw(st.sampled_from([1, max(mx - 2, 1), mx - 1, mx, mx + 1, mx * 3, 1000])))}
+            if draw(st.integers(0, 3)) == 0:
+                # the step budget is changed through Reset() between Init() and Solve()
+                sc["reset"] = draw(st.sampled_from([1, 2, 5, 50, 500]))
+                sc["steps"] = max(1, draw(st.sampled_from([sc["reset"] - 1, sc["reset"], sc["reset"] + 1, mx, mx + 1])))
+            scripts.append(sc)
     else:
         scripts = [draw(_path()) for _ in range(nscripts)]
     return {"backend": backend, "net": net, "scripts": scripts, "userfns": draw(st.booleans())}
@@ -114,6 +124,8 @@ def fixed_cases(tier):
         for L in range(1, 6):
             scripts.append({"dt": 77.0, "cv": [[-1, 0.5]] * L, "ri": [0] * (L - 1) + [-22]})
         out.append({"backend": be, "net": 1, "scripts": scripts, "userfns": True})
+        if be == "dense":
+            out.append({"backend": be, "net": 3, "scripts": scripts[:60], "userfns": True})  # network with a temperature equation
     ode = [{"dt": 10.0 ** e, "mxsteps": mx, "steps": s} for e in (-3, 4) for mx in (1, 3, 500) for s in sorted({1, max(mx - 1, 1), mx, mx + 1, 5 * mx})]
     out.append({"backend": "rosenbrock4", "net": 1, "scripts": ode, "userfns": True})
     return out
@@ -130,6 +142,8 @@ def net_case(k):
 def script_text(case, s, neq):
     ab = " ".join(repr(float((i + 1) * s["dt"] / 1024.0)) for i in range(neq))
     lines = [f"dt {float(s['dt']).hex()}", f"ab {ab}", f"userfns {1 if case.get('userfns') else 0}"]
+    if "reset" in s:
+        lines.append(f"reset {s['reset']}")
     if case["backend"] == "rosenbrock4":
         lines += [f"mxsteps {s['mxsteps']}", f"st {s['steps']}"]
     else:
@@ -201,8 +215,9 @@ def judge_odeint(s, b, neq, failures, tag):
     dt = s["dt"]
     ab0 = [float((i + 1) * dt / 1024.0) for i in range(neq)]
     calls = s["steps"] + 1
-    desc = f"{tag} dt={dt:.6g} mxsteps={s['mxsteps']} steps={s['steps']}"
-    if calls > s["mxsteps"]:
+    budget_ = s.get("reset", s["mxsteps"])
+    desc = f"{tag} dt={dt:.6g} mxsteps={s['mxsteps']}{' reset=' + str(s['reset']) if 'reset' in s else ''} steps={s['steps']}"
+    if calls > budget_:
         if b["ret"] != 1:
             failures.append(("solve/odeint-budget-overrun-not-reported", f"{desc}: {calls} observer calls exceed the budget but Solve returned {b['ret']}"))
     else:
@@ -242,7 +257,7 @@ def check_case(case, tier):
                     nfault += 1
             else:
                 judge_odeint(s, b, neq, failures, f"{be} script#{i}")
-                if s["steps"] + 1 > s["mxsteps"]:
+                if s["steps"] + 1 > s.get("reset", s["mxsteps"]):
                     nfault += 1
             if len(failures) > 6:
                 break
